@@ -77,6 +77,7 @@ for be in BACKS:
 
 DES = [REG_ENTRY, dict(name='member-call-start', pat='self -> internal_start (', rep='internal_start ( self ,', min=0, max=1),
        dict(name='member-call-process', pat='self -> process_event (', rep='process_event ( self ,', min=0, max=1),
+       dict(name='member-call-enqueue', pat='self -> enqueue_event (', rep='enqueue_event_instead ( self ,', min=0, max=1),
        dict(name='wrapper-member', pat='evt . m_event', rep='unwrap ( evt )', min=0),
        dict(name='TVAL-target-id', pat='get_state_id ( stt , EventType :: active_state :: wrapped_entry )', rep='g_target_id', min=0, max=1),
        dict(name='TVAL-target-region', pat='find_region_id ( EventType :: active_state :: wrapped_entry ) :: region_index', rep='g_target_region', min=0, max=1),
